@@ -8,11 +8,13 @@
      Prefix   - the first steps are forced to be WriteDomain calls that lay out an index
                 (PrefixId selects one of Prefixes; 0 = none) so that short histories
                 reach 2-4 pointer indexes where the binary search has real branches;
+     FreeWD   - FALSE: domain.Write only inside the prefix (writer-flow profiles);
+     MaxDel   - at most MaxDel Delete calls per history;
      PairWC   - a Write is immediately followed by a Commit of the same writer (the
                 bytes of a Write matter to this property only through the next Commit
                 or through being left behind uncommitted; both remain reachable).   *)
 EXTENDS DomainIndex, Json
-CONSTANTS Depth, PrefixId, PairWC
+CONSTANTS Depth, PrefixId, PairWC, FreeWD, MaxDel
 VARIABLE hist
 
 WD(s, e, n) == [s |-> s, e |-> e, n |-> n]
@@ -25,17 +27,21 @@ Prefixes == <<
 >>
 Prefix == IF PrefixId = 0 THEN <<>> ELSE Prefixes[PrefixId]
 
-WSum(w) == [st |-> writers'[w].st, start |-> writers'[w].start, end |-> writers'[w].end,
-            preset |-> writers'[w].preset, prev |-> writers'[w].prev, len |-> writers'[w].len,
-            file |-> writers'[w].file, off |-> writers'[w].off]
+\* compact JSON: p = pointers as <<s, e, file, off, size>>, ws = writer slots as
+\* <<open(0/1), start, end, preset(0/1), prev, len, file, off>>, fz = file sizes,
+\* x = <<sw, noop, dev, back>> flags (rollover, no-op commit, accepted inside
+\* Window_BackwardsAtRollover, commit that moves backwards)
+B(x) == IF x THEN 1 ELSE 0
+WSum(w) == <<B(writers'[w].st = "open"), writers'[w].start, writers'[w].end, B(writers'[w].preset),
+             writers'[w].prev, writers'[w].len, writers'[w].file, writers'[w].off>>
+PSum(q) == <<q.s, q.e, q.f, q.off, q.sz>>
 Rec == [a |-> op'.a, w |-> op'.w, s |-> op'.s, e |-> op'.e, n |-> op'.n,
-        so |-> op'.so, eo |-> op'.eo, f |-> op'.f, f2 |-> op'.f2, sw |-> op'.sw,
-        noop |-> op'.noop, ce |-> op'.ce,
-        dev |-> Window_BackwardsAtRollover(op') /\ res' = "ok",
-        back |-> Backwards(op'),
-        res |-> res', ptrs |-> pointers',
+        so |-> op'.so, eo |-> op'.eo, f |-> op'.f, f2 |-> op'.f2, ce |-> op'.ce,
+        x |-> <<B(op'.sw), B(op'.noop), B(Window_BackwardsAtRollover(op') /\ res' = "ok"), B(Backwards(op'))>>,
+        r |-> res',
+        p |-> [i \in 1..Len(pointers') |-> PSum(pointers'[i])],
         ws |-> [w \in Slots |-> WSum(w)],
-        fsz |-> [f \in 1..Len(files') |-> files'[f].size]]
+        fz |-> [f \in 1..Len(files') |-> files'[f].size]]
 
 GNext ==
   /\ Len(hist) < Depth
@@ -46,6 +52,8 @@ GNext ==
         op'.a = "wd" /\ op'.s = q.s /\ op'.e = q.e /\ op'.n = q.n
   /\ (PairWC /\ Len(hist) > 0 /\ hist[Len(hist)].a = "write") =>
         (op'.a = "commit" /\ op'.w = hist[Len(hist)].w)
+  /\ (~FreeWD /\ Len(hist) >= Len(Prefix)) => op'.a # "wd"
+  /\ op'.a = "delete" => Cardinality({i \in 1..Len(hist) : hist[i].a = "delete"}) < MaxDel
   \* a trailing Write cannot influence anything observable
   /\ (PairWC /\ Len(hist) = Depth - 1) => op'.a # "write"
 GInit == Init /\ hist = <<>>
